@@ -1,5 +1,6 @@
 import EdsModel
 import EdsProofs.FactsBridge
+import EdsProofs.ReconcileEds
 /-
   C12 — An ExtendedDaemonSet only ever touches its own objects.
 -/
@@ -19,6 +20,7 @@ theorem C12_list_sites_known :
       ("controllers/extendeddaemonset/controller.go", "Reconcile", "ExtendedDaemonSetReplicaSetList"),
       ("controllers/extendeddaemonset/controller.go", "selectNodes", "PodList"),
       ("controllers/extendeddaemonset/controller.go", "selectNodes", "NodeList"),
+      ("controllers/extendeddaemonset/controller.go", "countTargetedNodes", "NodeList"),
       ("controllers/extendeddaemonsetreplicaset/controller.go", "getExtendedDaemonsetSettings", "ExtendedDaemonsetSettingList"),
       ("controllers/extendeddaemonsetreplicaset/controller.go", "getPodList", "PodList"),
       ("controllers/extendeddaemonsetreplicaset/controller.go", "getNodeList", "NodeList"),
@@ -26,19 +28,6 @@ theorem C12_list_sites_known :
       ("controllers/extendeddaemonsetreplicaset/strategy/rollingupdate.go", "ManageDeployment", "PodList"),
       ("controllers/extendeddaemonsetsetting/controller.go", "Reconcile", "ExtendedDaemonsetSettingList"),
       ("controllers/extendeddaemonsetsetting/controller.go", "Reconcile", "NodeList")] := by decide
-
-theorem edsMain_deleted (d : EDS) (list : List ERS) (u : ERS) (pods : List Pod) (nodes : List Node) (now : Time) :
-    (edsMain d list u pods nodes now).deletedErs =
-      cleanupTargetsERS now list (currentOf d list u now).1.name u.name := by
-  unfold edsMain
-  simp only []
-  split <;> rfl
-
-theorem edsMain_created (d : EDS) (list : List ERS) (u : ERS) (pods : List Pod) (nodes : List Node) (now : Time) :
-    (edsMain d list u pods nodes now).created = none := by
-  unfold edsMain
-  simp only []
-  split <;> rfl
 
 /-- **Deletes are owned**: every replica set the reconcile deletes is in the EDS's namespace and
 carries its name label. -/
